@@ -59,6 +59,11 @@ func msmPoints(cls string, n int, p *prg) []banderwagon.Element {
 			base = rescaled(base, z, i%3 == 0)
 		case "same":
 			base = cfg.SRS[5]
+		case "neg": // P next to -P
+			base = cfg.SRS[(i/2)%256]
+			if i%2 == 1 {
+				base.Neg(&base)
+			}
 		}
 		pts[i] = base
 	}
